@@ -7,6 +7,6 @@ snap=/tmp/verif-snap
 rm -rf $snap; mkdir -p $snap
 rsync -a --exclude .cache --exclude .git --exclude 'target*' /verif/ $snap/
 export VERIF_ROOT=$snap
-printf '%s\n' "$@" | xargs -P 4 -I{} bash -c "$snap/tools/mutcheck.sh {} 2>&1 | tail -8" >> $log 2>&1
+printf '%s\n' "$@" | xargs -P ${BATTERY_P:-4} -I{} bash -c "$snap/tools/mutcheck.sh {} 2>&1 | tail -8" >> $log 2>&1
 rm -rf $snap
 echo BATTERY-DONE >> $log
